@@ -20,6 +20,9 @@ pub struct SyncEvent {
     pub data_only: bool,
     /// True for an intercepted `unlink` (then `len` is 0).
     pub unlink: bool,
+    /// Bytes of the file at the moment of the sync, captured for publication temp files
+    /// (`*.tmp`) only: that is the version a temp+rename publication is about to install.
+    pub content: Option<Vec<u8>>,
 }
 
 static TOTAL: AtomicU64 = AtomicU64::new(0);
@@ -44,6 +47,11 @@ fn note(fd: libc::c_int, data_only: bool) {
         }
     };
     let path = std::fs::read_link(format!("/proc/self/fd/{fd}")).unwrap_or_default();
+    let content = if !is_dir && path.extension().is_some_and(|e| e == "tmp") {
+        std::fs::read(&path).ok()
+    } else {
+        None
+    };
     REC.with(|r| {
         if let Ok(mut g) = r.try_borrow_mut() {
             if let Some(v) = g.as_mut() {
@@ -53,6 +61,7 @@ fn note(fd: libc::c_int, data_only: bool) {
                     is_dir,
                     data_only,
                     unlink: false,
+                    content,
                 });
             }
         }
@@ -97,6 +106,7 @@ pub unsafe extern "C" fn unlink(path: *const libc::c_char) -> libc::c_int {
                         is_dir: false,
                         data_only: false,
                         unlink: true,
+                        content: None,
                     });
                 }
             }
